@@ -1031,6 +1031,7 @@ class LogixDriver(CIPDriver):
                 parsed_tag["request_id"],
                 self._cfg["use_instance_ids"],
             )
+            request.build_message()
 
             return_size = _tag_return_size(parsed_tag) + len(request.message)
             if return_size > self.connection_size:
